@@ -353,8 +353,8 @@ var defDuo = pbt.Def[duo.Case]{Name: "instance-limits-and-completion", Gen: genD
 
 func TestProp(t *testing.T) {
 	outerT = t
-	pbt.Check(t, run, defQ, 6000, 1000000)
-	pbt.Check(t, run, defDuo, 3000, 200000)
+	pbt.Check(t, run, defQ, 6000, 500000)
+	pbt.Check(t, run, defDuo, 3000, 100000)
 }
 
 func TestReplay(t *testing.T) {
